@@ -244,6 +244,21 @@ def decorate(smi, rng, groups=None):
     return m
 
 
+SMALL_ATOMS = ['C', 'N', 'O', 'S', 'P', '[N+]', '[O-]', '[N-]', '[S+]', '[C-]', '[C+]', 'B', 'Cl']
+SMALL_CORE = ['C', 'N', 'O', 'S', '[N+]', '[O-]', '[N-]']
+SMALL_BONDS = ['', '=', '#']
+
+
+def small_space(tier, stride=1):
+    """exhaustive small molecules: every 1- and 2-atom molecule over 13 atom types and 3 bond orders, every 3-atom chain over 7 atom types
+    (valence-invalid ones included: that is what the rules repair); quick takes every `stride`-th"""
+    out = list(SMALL_ATOMS)
+    out += [a + bd + c for a in SMALL_ATOMS for bd in SMALL_BONDS for c in SMALL_ATOMS]
+    if tier == 'thorough':
+        out += [a + b1 + c + b2 + e for a in SMALL_CORE for b1 in SMALL_BONDS for c in SMALL_CORE for b2 in SMALL_BONDS for e in SMALL_CORE]
+    return out[::stride]
+
+
 def mol_inputs(ck, rng):
     """(tag, molecule factory) list: documented pairs, rule instantiations, metal-organics, decorated corpus, corpus, malformed"""
     from chython import smiles
@@ -262,6 +277,9 @@ def mol_inputs(ck, rng):
         out.append(('extra', s))
     for s in GEMINAL:
         out.append(('geminal', s))
+    if ck is not None:
+        for s in small_space(ck.tier, 15 if ck.tier == 'quick' else 1):
+            out.append(('small', s))
     return out
 
 
@@ -338,7 +356,7 @@ def corr_engine(ck, rng):
             ck.count('engine:bad charge formed')
         add(f'passes_ok {b(ft)} {table_term(rec)} {zl(pre)} {rec[0]["g0"]} {final} {rlog_term(log)} {zl(fixed)}',
             {'kind': 'standardize()', 'tag': tag, 'mol': label, 'fix_tautomers': ft})
-        if rec[0]['natoms'] <= 14 and all(len(e['eager']) <= 1 for e in rec) and tag in ('doc', 'extra'):
+        if rec[0]['natoms'] <= 14 and all(len(e['eager']) <= 1 for e in rec) and tag in ('doc', 'extra', 'small', 'geminal'):
             mcases.append(f'passes_bf_ok {b(ft)} {zl(pre)} {rec[0]["g0"]} {final} {zl(fixed)}')
             mmeta.append({'kind': 'standardize() with the specification matcher', 'tag': tag, 'mol': label, 'fix_tautomers': ft})
             ck.count('matcher:whole standardize() inside Coq')
@@ -437,7 +455,7 @@ def corr_hydrogens(ck, rng):
     from chython import smiles
     cases, meta = [], []
     n_corpus = 35 if ck.tier == 'quick' else 500
-    pool = [('h', s) for s in H_SMILES] + [('doc', raw) for raw, _ in test_groups_data()[::2]] + \
+    pool = [('h', s) for s in H_SMILES] + [('small', s) for s in small_space(ck.tier, 13 if ck.tier == 'quick' else 1)] + [('doc', raw) for raw, _ in test_groups_data()[::2]] + \
            [('corpus', s) for s in corpus.sample(corpus.lipo(), n_corpus, ck.seed, 'c14-h')]
     for k, (tag, s) in enumerate(pool):
         try:
@@ -1144,6 +1162,8 @@ def search(ck, rng):
         for name in OPS:
             if quick and tag in ('doc', 'documented result') and name not in ('standardize', 'canonicalize', 'fix_resonance', 'standardize_charges',
                                                                               'explicify_hydrogens' if tag == 'doc' else 'neutralize'):
+                continue
+            if tag == 'small' and name not in ('standardize', 'canonicalize', 'fix_resonance', 'explicify_hydrogens'):
                 continue
             if quick and tag not in ('geminal', 'azolium', 'aromatic resonance', 'pi-complex') and 'fix_tautomers=False' in name and 'keep_kekule' not in name \
                     and hash_pick(s, name, 'ft') % 2:
